@@ -317,6 +317,7 @@ func init() {
 			return []Term{r}, true
 		},
 	}
+	registerJSONHandlers()
 	// go-jose: (obj JSONWebSignature) Verify(key) has a value receiver; the spec identifies the JWS by
 	// the pointer the receiver was loaded from (the parsed object), see specs/10_stdlib.spec.
 	extHandlers["github.com/go-jose/go-jose/v4.JSONWebSignature.Verify"] = func(fr *Frame, st *State, call ssa.CallInstruction, fn *ssa.Function, a []Term) ([]Term, bool) {
